@@ -101,9 +101,14 @@ def get_source_operand(op: MemorySpaceCastOp | LayoutCast) -> Operand:
     Find the source of a chain of layout / memory space casts.
     """
     # if the source of the memref cast is another layout_cast op,
-    # combine them all together
+    # combine them all together. A cast that has other users stands for
+    # a buffer of its own (they read and write it): the chain ends there
     source_op = op
-    while isinstance(source_op.source, OpResult) and isinstance(source_op.source.op, MemorySpaceCastOp | LayoutCast):
+    while (
+        isinstance(source_op.source, OpResult)
+        and isinstance(source_op.source.op, MemorySpaceCastOp | LayoutCast)
+        and source_op.source.uses.get_length() == 1
+    ):
         source_op = source_op.source.op
     return source_op.source
 
@@ -495,10 +500,13 @@ class RealizeMemrefCasts(RewritePattern):
         ops_to_add: list[Operation] = []
 
         # if the source of the memref cast is another layout_cast op,
-        # combine them all together
+        # combine them all together. A cast that has other users stands for
+        # a buffer of its own (they read and write it): the chain ends there
         source_op = op
-        while isinstance(source_op.source, OpResult) and isinstance(
-            source_op.source.op, MemorySpaceCastOp | LayoutCast
+        while (
+            isinstance(source_op.source, OpResult)
+            and isinstance(source_op.source.op, MemorySpaceCastOp | LayoutCast)
+            and source_op.source.uses.get_length() == 1
         ):
             source_op = source_op.source.op
 
